@@ -94,7 +94,7 @@ def range_check(cls, kw, col, xs, s0, stats, r):
             continue
         if a is None:
             w = [x for x in xs[max(0, i - p + 1):i + 1] if x is not None]
-            slack = (i + 2) * 0.5 * 10 ** -r if cls == "SMA" else 0.5 * 10 ** -r
+            slack = 0.5 * 10 ** -r
         else:
             w = [x for x in xs[:i + 1] if x is not None]
             slack = 0.5 * 10 ** -r / a
